@@ -162,10 +162,11 @@ func VerifHarness_C18_save() {
 		}
 	case !exists:
 		vfAssert(err != nil && !ok, "C18.save/saving-a-missing-dag-is-refused")
-	case text != vfTextNew:
+	case text == vfTextBad:
 		vfAssert(err != nil && ok && got == vfTextA, "C18.save/rejected-save-leaves-the-definition-untouched")
 	default:
-		vfAssert(err == nil && ok && got == vfTextNew, "C18.save/accepted-save-stores-the-new-text")
+		// vfTextNew, or the empty document (which the loader accepts as an empty definition)
+		vfAssert(err == nil && ok && got == text, "C18.save/accepted-save-stores-the-new-text")
 	}
 	vfReach("end")
 }
